@@ -332,8 +332,9 @@ func TestC10MbappBidi(t *testing.T) {
 		if ev.NonTrivial(sub, desc+fmt.Sprint(perm)) {
 			ev.Sample(sub, desc+" order="+fmt.Sprint(perm))
 		}
-		select {
-		case a := <-askDone:
+		if a, returned := ev.PatientRecv(4*time.Second, askDone); !returned {
+			fail("Ask did not return")
+		} else {
 			if a.err == nil && !bytes.Equal(a.buf[:a.n], resp.Data) {
 				_, why := led.Check(1, a.buf[:a.n])
 				fail("Ask returned success with %d bytes that are not the handler's %d-byte response (%s)", a.n, len(resp.Data), why)
@@ -341,8 +342,6 @@ func TestC10MbappBidi(t *testing.T) {
 			if a.err == nil {
 				ev.Class(sub, "ask-succeeded")
 			}
-		case <-time.After(4 * time.Second):
-			fail("Ask did not return")
 		}
 		time.Sleep(5 * time.Millisecond)
 		mu.Lock()
